@@ -32,4 +32,9 @@ def run_many(jobs, workers=None):
     """jobs: list of dict(args=[...], stdin=b'', cwd=None) -> list of (rc, out, err)"""
     jaq_bin()
     with concurrent.futures.ThreadPoolExecutor(max_workers=workers or core.NCPU) as ex:
-        return list(ex.map(lambda j: run_one(j["args"], j.get("stdin", b""), j.get("cwd"), j.get("timeout", 20), j.get("env")), jobs))
+        res = list(ex.map(lambda j: run_one(j["args"], j.get("stdin", b""), j.get("cwd"), j.get("timeout", 20), j.get("env")), jobs))
+    # a time-out under load is not a result: such runs are repeated alone with three times the time
+    for i, (j, r) in enumerate(zip(jobs, res)):
+        if r[0] == -999:
+            res[i] = run_one(j["args"], j.get("stdin", b""), j.get("cwd"), 3 * j.get("timeout", 20), j.get("env"))
+    return res
